@@ -462,12 +462,23 @@ fn layered_sweep<A: Arith>(name: &str, thorough: bool) -> Acc {
             }
         }
     }
-    cases
-        .par_chunks(2048)
-        .map(|ch| {
+    // one arithmetic object per job, cases taken in a stride order that mixes the degrees
+    let njobs = cases.len().div_ceil(2048).max(1);
+    (0..njobs)
+        .into_par_iter()
+        .map(|c| {
             let mut acc = Acc::new();
             let mut a = A::default();
-            for (dests, old, vars) in ch {
+            let mut idx: Vec<usize> = Vec::new();
+            let mut i = c;
+            while i < cases.len() {
+                idx.push(i);
+                i += njobs;
+            }
+            // forward (degrees ascending) and then backward (descending) on the same object
+            let back: Vec<usize> = idx.iter().rev().step_by(7).cloned().collect();
+            for &i in idx.iter().chain(back.iter()) {
+                let (dests, old, vars) = &cases[i];
                 let old_v: Vec<A::V> = old.iter().map(|&x| A::V::of(x)).collect();
                 let vars_w: Vec<A::W> = vars.iter().map(|&x| A::W::of(x)).collect();
                 // stay inside the reachable envelope: |var - old| must fit the layered rule's precondition
